@@ -108,6 +108,9 @@ type c05Script struct {
 	// MaxRetries of the client: 0 (unbounded) or a bound that the scripted faults never reach
 	// without an intervening successful connection (each fault costs at most 2 consecutive retries).
 	MaxRetries int `json:"max_retries,omitempty"`
+	// Pad: extra payload bytes per event (long-lived connections that move several KiB, so that
+	// the client's scanner buffer is compacted and refilled many times between cuts).
+	Pad int `json:"pad,omitempty"`
 	Payloads bool    `json:"hostile_payloads,omitempty"`
 }
 
@@ -257,12 +260,12 @@ func runC05(sc *c05Script, rng *rand.Rand) (res c05Result) {
 				}
 			}
 			if want < 0 {
-				addFinding([]string{"unknown_event"}, "the first event received %v was never published", obsEvent{e.LastEventID, e.Type, e.Data})
+				addFinding([]string{"unknown_event"}, "the first event received %v was never published", obsEvent{strings.Clone(e.LastEventID), strings.Clone(e.Type), strings.Clone(e.Data)})
 				return
 			}
 		}
 		if want >= len(published) {
-			addFinding([]string{"unknown_event"}, "received event %v but only %d were published", obsEvent{e.LastEventID, e.Type, e.Data}, len(published))
+			addFinding([]string{"unknown_event"}, "received event %v but only %d were published", obsEvent{strings.Clone(e.LastEventID), strings.Clone(e.Type), strings.Clone(e.Data)}, len(published))
 			return
 		}
 		p := published[want]
@@ -283,14 +286,16 @@ func runC05(sc *c05Script, rng *rand.Rand) (res c05Result) {
 			case pos < 0:
 				tags = append(tags, "event_altered")
 			}
-			addFinding(tags, "event #%d received by the client is %v, expected the next published event %v (published index %d, matched index %d)", clientGot.Load(), obsEvent{e.LastEventID, e.Type, e.Data}, obsEvent{p.ID, p.Type, p.Data}, want, pos)
+			addFinding(tags, "event #%d received by the client is %v, expected the next published event %v (published index %d, matched index %d)", clientGot.Load(), obsEvent{strings.Clone(e.LastEventID), strings.Clone(e.Type), strings.Clone(e.Data)}, obsEvent{p.ID, p.Type, p.Data}, want, pos)
 			if pos > nextIdx {
 				nextIdx = pos
 			}
 		} else {
 			nextIdx = want
 		}
-		clientLast.Store(e.LastEventID)
+		// copy: the monitor's notion of "the ID of the last dispatched event" must not share
+		// memory with whatever the library handed to the callback
+		clientLast.Store(strings.Clone(e.LastEventID))
 		clientGot.Add(1)
 	})
 	connectDone := make(chan error, 1)
@@ -299,6 +304,12 @@ func runC05(sc *c05Script, rng *rand.Rand) (res c05Result) {
 	deadline := time.Now().Add(40 * time.Second)
 	waitFor := func(cond func() bool) bool {
 		for !cond() {
+			fmu.Lock()
+			nf := len(res.Findings)
+			fmu.Unlock()
+			if nf > 0 {
+				return false // a monitor already fired: no point in waiting for progress that cannot come
+			}
 			if time.Now().After(deadline) {
 				res.Watchdog = true
 				return false
@@ -324,6 +335,7 @@ func runC05(sc *c05Script, rng *rand.Rand) (res c05Result) {
 	}
 	seq := 0
 	var lastPutFake int64
+	bigNext := false
 	publish := func() {
 		k := seq
 		seq++
@@ -336,6 +348,13 @@ func runC05(sc *c05Script, rng *rand.Rand) (res c05Result) {
 			if len(extra) < 200 {
 				data = tok + "\n" + extra
 			}
+		}
+		if sc.Pad > 0 {
+			data += "\n" + strings.Repeat(string(rune('a'+k%26)), sc.Pad)
+		}
+		if bigNext {
+			bigNext = false
+			data += "\n" + strings.Repeat("B", 9000)
 		}
 		m.AppendData(data)
 		model.Append(false, data)
@@ -388,6 +407,9 @@ func runC05(sc *c05Script, rng *rand.Rand) (res c05Result) {
 			}
 		case "caughtup":
 			ok = waitFor(caughtUp)
+		case "pub_big":
+			bigNext = true
+			publish()
 		case "advance":
 			// only meaningful right after "caughtup"
 			// The client's resume anchor (its last received event = the last published one, since
@@ -507,6 +529,12 @@ func genC05(rng *rand.Rand) *c05Script {
 	}
 	if strings.HasPrefix(sc.Replayer, "valid") && rng.IntN(3) > 0 {
 		sc.FakeClock = true
+	}
+	if rng.IntN(4) == 0 {
+		sc.Pad = 40 + rng.IntN(100)
+		sc.Ops = append(sc.Ops, c05Op{Kind: "pub", N: 30 + rng.IntN(50)}, c05Op{Kind: "caughtup"}, c05Op{Kind: "cut_bytes", N: 5 + rng.IntN(sc.Pad)}, c05Op{Kind: "pub", N: 2 + rng.IntN(4)}, c05Op{Kind: "caughtup"})
+		// a 9 KB event of which only a part arrives before the cut
+		sc.Ops = append(sc.Ops, c05Op{Kind: "cut_bytes", N: 2200 + rng.IntN(6000)}, c05Op{Kind: "pub_big"}, c05Op{Kind: "pub", N: 1 + rng.IntN(3)}, c05Op{Kind: "caughtup"})
 	}
 	nf := 1 + rng.IntN(6)
 	for i := 0; i < nf; i++ {
